@@ -100,6 +100,11 @@ def execute(case):
     light_late.traffic_light_cycle = _mk(case)
     light_switched = TrafficLight(4, np.array([0.0, 0.0]), _mk(case))
     light_switched.active = False
+    # the optional `color` list names the lamps of the signal head; it must not change what the light reports
+    from commonroad.scenario.traffic_light import TrafficLightState as _S
+    light_col1 = TrafficLight(6, np.array([0.0, 0.0]), _mk(case), color=[_S.GREEN])
+    light_col3 = TrafficLight(7, np.array([0.0, 0.0]), _mk(case))
+    light_col3.color = [_S.RED, _S.YELLOW, _S.GREEN]
     ts = case.get("ts") or list(range(case.get("tmin", 0), case["horizon"] + 1))
     tag = ("/" + case["dt"]) if case.get("dt") else ""
     for t in ts:
@@ -111,6 +116,8 @@ def execute(case):
             ev.append(dict(base, op="light_state", t=t, res=_q(light_off, t), sig="light/constructed-inactive"))
             ev.append(dict(base, op="light_state", t=t, res=_q(light_late, t), sig="light/cycle-set-later"))
             ev.append(dict(base, op="light_state", t=t, res=_q(light_switched, t), sig="light/switched-off"))
+            ev.append(dict(base, op="light_state", t=t, res=_q(light_col1, t), sig="light/color-list-one"))
+            ev.append(dict(base, op="light_state", t=t, res=_q(light_col3, t), sig="light/color-list-set-later"))
     # two cycles constructed WITHOUT an element list and filled in place afterwards: each follows its own definition
     from commonroad.scenario.traffic_light import TrafficLightCycle as _TLC, TrafficLightCycleElement as _TLE, \
         TrafficLightState as _TLS
